@@ -12,6 +12,8 @@
 //   COMP kind name args...         (bundled components, see components.go)
 //   REC name upnode upport         (recorder: logs every received path, then forwards nothing)
 //   RUNTO idx*
+//   NEXTWF                         (what follows belongs to a further Workflow object of the same program: all workflows are
+//                                   constructed first, then run one after the other; RUNTO applies to the last one)
 // After Run/RunTo returns it prints RUN-RETURNED and a snapshot of the directory.
 package main
 
@@ -125,9 +127,15 @@ func main() {
 	haveRunTo := false
 	sc := bufio.NewScanner(f)
 	sc.Buffer(make([]byte, 1<<20), 1<<26)
+	earlier := []*sp.Workflow{}
+	wfCount := 0
 	getWf := func() *sp.Workflow {
 		if wf == nil {
-			wf = sp.NewWorkflowCustomLogFile("wfrun", max, "wfrun.log")
+			name := "wfrun"
+			if wfCount > 0 {
+				name = fmt.Sprintf("wfrun%d", wfCount+1)
+			}
+			wf = sp.NewWorkflowCustomLogFile(name, max, "wfrun.log")
 		}
 		return wf
 	}
@@ -273,6 +281,11 @@ func main() {
 			r := newRecorder(getWf(), name)
 			r.InParamPort("pin").From(nodes[up].pout(upport))
 			nodes = append(nodes, &node{name: name, other: r})
+		case "NEXTWF":
+			earlier = append(earlier, getWf())
+			wf = nil
+			wfCount++
+			nodes = append(nodes, &node{name: "-nextwf-"}) // keeps node indices aligned with the spec
 		case "RUNTO":
 			haveRunTo = true
 			runtoMode = k.next()
@@ -280,6 +293,9 @@ func main() {
 				runto = append(runto, k.int())
 			}
 		}
+	}
+	for _, w := range earlier {
+		w.Run()
 	}
 	if haveRunTo {
 		names := []string{}
